@@ -368,7 +368,7 @@ func calcStatusCode(cfg *ResponseConfig, a *asset, segmentPart string, nowMS int
 		// Segment numbers in URLs are offset by startNumber, the generated timeline counts from 0.
 		firstNr := cfg.getStartNr()
 		if nrWraps > 0 {
-			lastNr := findLastSegNr(cfg, a, wrapStartS*1000, segMeta.rep)
+			lastNr := findLastSegNr(cfg, a, (cfg.StartTimeS+wrapStartS)*1000, segMeta.rep)
 			firstNr += lastNr + 1
 		}
 		segTime, err := findSegStartTime(a, cfg, firstNr, segMeta.rep)
